@@ -131,11 +131,11 @@ def c10_families(rng, tier):
     fams.append(fam("filter", ["filter %d" % w for w in ws],
                     "filter on the 52 cards, blank, every single-bit corruption of every card, flagged cards, "
                     "small numbers, inconsistent-field words and seeded random u32 words; non-trivial = distinct "
-                    "word", categories=cats))
+                    "word", categories=cats, pinned=True))
     fams.append(fam("create", ["create %d %d" % (r, s) for r in range(14) for s in range(5)],
-                    "create on all 14 x 5 (rank variant, suit variant) pairs", exhaustive=True))
-    fams.append(fam("accessors", ["acc %d" % w for w in DECK + [0]],
-                    "all accessors on the 52 cards and blank", exhaustive=True))
+                    "create on all 14 x 5 (rank variant, suit variant) pairs", exhaustive=True, pinned=True))
+    fams.append(fam("accessors", ["accf %d" % w for w in DECK + [0]],
+                    "rank, suit, prime, bit, flag and character accessors on the 52 cards and blank", exhaustive=True, pinned=True))
     return fams
 
 
@@ -161,7 +161,7 @@ def c18_families(rng, tier):
                 "Deck::get on EVERY index 0..=70000 (all u8/u16 truncation classes), 2^k + small offsets for every byte boundary, indices whose "
                 "quotient by 1/2/4/13/26/52 wraps a u8/u16/u32 back into the deck, "
                 "usize::MAX and seeded random usize of every magnitude; non-trivial = distinct index",
-                categories={"in_range": sum(1 for i in idx if i < 52), "past_end": sum(1 for i in idx if i >= 52)})]
+                categories={"in_range": sum(1 for i in idx if i < 52), "past_end": sum(1 for i in idx if i >= 52)}, pinned=True)]
 
 
 # ---- hands ---------------------------------------------------------------------------------------
@@ -1094,7 +1094,7 @@ def c17_families(rng, tier):
     return [
         fam_cmd("all_pairs", ["pairs", "--op", "two"], "ALL 52 x 51 ordered pairs of distinct cards: chen_formula, get_gap, high_card, is_connector, "
                 "is_pocket_pair, is_suited, is_suited_connector", profiles=["release", "chk"], pinned=True),
-        fam("card_points", ["acc %d" % w for w in DECK + [0]], "per-card Chen points (and all accessors) on the 52 cards and blank", exhaustive=True, pinned=True),
+        fam("card_points", ["accp %d" % w for w in DECK + [0]], "per-card Chen points (doubled) on the 52 cards and blank", exhaustive=True, pinned=True),
         fam("pairs_from_text", two_texts(rng), "two distinct cards given as TEXT through Two::try_from (rank + suit letter or glyph, either case; "
             "leading / trailing / repeated Unicode whitespace): the same helpers on the parsed hand", pinned=True),
         fam("shifted_pairs", [line("two", [shift_word(a), shift_word(b)]) for a in DECK[::3] for b in DECK[1::5] if a != b],
@@ -1188,5 +1188,5 @@ def c20_families(rng, tier):
     return [
         fam("flags", ["flags %d" % w for w in ws + [0]], "flag_as_pair / trips / quads and strip_multiples_flags on ALL 52 cards x 8 mark "
             "combinations (and blank)", exhaustive=True, pinned=True),
-        fam("marked_accessors", ["acc %d" % w for w in ws], "every accessor on ALL 52 x 8 marked words", exhaustive=True, pinned=True),
+        fam("marked_accessors", ["accf %d" % w for w in ws], "rank, suit, prime, bit, flag and character accessors on ALL 52 x 8 marked words", exhaustive=True, pinned=True),
     ]
